@@ -84,6 +84,7 @@ fn main() {
                 }
             }
         }
+        "c14-child" => exit(pgverif::props::c14::child_main()),
         _ => usage(),
     }
 }
